@@ -624,7 +624,8 @@ func (f *SQLFormatter) formatExpression(expr ast.Expression) error {
 			} else {
 				strVal = fmt.Sprintf("%v", e.Value)
 			}
-			escaped := strings.ReplaceAll(strVal, "'", "''")
+			escaped := strings.ReplaceAll(strVal, `\`, `\\`)
+			escaped = strings.ReplaceAll(escaped, "'", "''")
 			f.builder.WriteString("'")
 			f.builder.WriteString(escaped)
 			f.builder.WriteString("'")
